@@ -28,6 +28,9 @@ func (r *Rng) Intn(n int) int {
 	return int(r.U64() % uint64(n))
 }
 func (r *Rng) P(pct int) bool { return r.Intn(100) < pct }
+
+// Fork returns a generator derived from the current state; drawing from it leaves r's own stream as it was.
+func (r *Rng) Fork(salt uint64) *Rng { return &Rng{s: (r.s ^ salt) * 0x9E3779B97F4A7C15} }
 func Pick[T any](r *Rng, xs []T) T { return xs[r.Intn(len(xs))] }
 
 // Kinds of schema nodes.
